@@ -108,6 +108,12 @@ def run(ck: Checker):
         p = path_avoiding(cfg, [e for e in cfg.succ[tests[0].id] if e.kind == 'F'], {s.id for s in stores}, avoid={tests[0].id})
         if p is not None:
             probs.append('an exception with no traceback information at all is accepted silently')
+    # the text is formatted with the chain: the remote traceback of the previous hop is the __cause__ of the exception at
+    # hand, and explicit causes / contexts are part of "the child's traceback text"
+    for c in [n for n in walk_deep_func(init.node) if isinstance(n, ast.Call) and (dotted(n.func) or '').endswith('format_exception')]:
+        ch = [k.value for k in c.keywords if k.arg == 'chain']
+        if ch and not (isinstance(ch[0], ast.Constant) and ch[0].value is True):
+            probs.append(f'L{c.lineno}: the traceback is formatted with chain={norm_text(ch[0])}: the text of the cause chain — including the remote traceback of an earlier hop when the exception was re-raised before being wrapped again — is dropped')
     ck.ob('C15-3', init, fwd[0].ast if fwd else init.node, not probs, '; '.join(probs) if probs else 'own traceback → formatted; no own traceback but remote → the forwarded text is reused verbatim; neither → ValueError')
     # ------------------------------------------------------------------ C15-4
     rt = mod.cls('RemoteTraceback')
@@ -125,6 +131,14 @@ def run(ck: Checker):
             probs.append(f'get_remote_traceback returns `{norm_text(read[0].value) if read else None}`, but the text is stored in `.{a}` of the __cause__')
     if 'RemoteTraceback' not in norm_text(ire.node) or '__cause__' not in norm_text(ire.node):
         probs.append('is_remote_exception does not test `isinstance(e.__cause__, RemoteTraceback)`')
+    else:
+        # not narrower than that: every BaseException whose __cause__ is a RemoteTraceback is remote (KeyboardInterrupt,
+        # SystemExit, CancelledError and other BaseException-only classes travel through RemoteException too)
+        ip = ire.params()[0]
+        irets = [n for n in walk_shallow_func(ire.node) if isinstance(n, ast.Return)]
+        hyps = {f'isinstance({ip}, BaseException)', f'isinstance({ip}.__cause__, RemoteTraceback)'}
+        if len(irets) != 1 or not implied_by(irets[0].value, hyps):
+            probs.append(f'is_remote_exception is narrower than "a BaseException whose __cause__ is a RemoteTraceback" (`{norm_text(irets[0].value) if irets else None}`): exceptions outside the tested class arrive with their remote traceback but are not recognised as remote — forwarding one of them raises ValueError instead of reusing the text')
     if not any(isinstance(n, ast.ClassDef) for n in [rt.node]) or 'Exception' not in [b.split('.')[-1] for b in rt.bases] and 'BaseException' not in [b.split('.')[-1] for b in rt.bases]:
         probs.append('RemoteTraceback is not an exception class: it cannot be a __cause__')
     ck.ob('C15-4', grt, (grt.node.lineno, 'traceback storage'), not probs, '; '.join(probs) if probs else f'text stored in and read from `__cause__.{attr[0].split(".", 1)[1]}`; remoteness = __cause__ is a RemoteTraceback')
